@@ -92,6 +92,16 @@ CHECKS["C12"] = ("other",
     "(3994) except the two refutations covered by known finding F9. Trusted: lru_cache transparency, seeded shuffle is a permutation, "
     "sha384 uninterpreted, asyncio.Queue/Event fakes, integer clocks.",
     "symbolic execution of the real AST per function + paging lemma, VCs by z3/cvc5; bounded network simulation", "3 C12")
+CHECKS["C07"] = ("proof",
+    "Deductive: validate_header accepts only linking headers with exactly the demanded bits and enough work (all field/target/work "
+    "values); connect/validate_chunk on batches of 1..3 headers of ARBITRARY bytes over two stored headers (link checking): stored part "
+    "is a linked prefix, a valid batch is stored whole, nothing at or beyond the first invalid header; header codec inverse. Bounded "
+    "(labelled): retarget rule and compact codec vs an integer lbrycrd reference; the 20 real main-net headers in every split and with "
+    "every single-field alteration under full rules; restart/repair on chains up to 1073 headers with every damaged position above "
+    "height 999 and cuts near the tip; checkpoint acceptance.",
+    "Trusted: hashes uninterpreted, struct/BytesIO models, ArithUint256.__truediv__ (float division of a 256-bit int) is an unknown "
+    "quotient in the link-only proofs. Not decided: retarget arithmetic for all values (binary64 steps), PoW values, forks.",
+    "symbolic execution of the real AST on arbitrary header bytes, VCs by z3/cvc5; bounded differential vs integer reference", "3 C07")
 NOT_YET = {}
 
 def main():
